@@ -166,7 +166,8 @@ def check(pid, tier, seed):
     # bounded-scenario, never counted as proved); if all pass the unit stays undecided (exit 2).
     und_units = [u for u in units if results[u].status == "undecided"]
     scenario_runs = []
-    if und_units and not failures and P.get("kani"):
+    _kn = load_known()
+    if und_units and not [f for f in failures if (pid, f["obligation"]) not in _kn] and P.get("kani"):
         from . import kani as _k
         for g in P["kani"]:
             hs = [h for h in _k.parse_harnesses(g["unit"]) if h["kind"] == "witness" and pid in h["props"]
